@@ -1083,11 +1083,20 @@ pub fn run_sock_frames(ctx: &Ctx) -> i32 {
                         }
                     }
                     let mut rng = SmallRng::seed_from_u64(ctx.case_seed("sockframe", c));
-                    let limit: u32 = [256, 512, 1 << 20][rng.gen_range(0..3)];
+                    let limit: u32 = [256, 512, 1 << 20, 4200, 6000, 16384][rng.gen_range(0..6)];
                     let nf = rng.gen_range(2..=10);
                     let closing = rng.gen_bool(0.3);
                     let mut stream = vec![];
+                    // a storing request whose body is as large as the item limit allows (or a few bytes less), with
+                    // pipelined followers behind it: the largest amount of bytes a connection legitimately buffers
+                    let near_at = if limit < (1 << 20) && rng.gen_bool(0.6) { Some(rng.gen_range(0..nf.min(3))) } else { None };
                     for i in 0..nf {
+                        if near_at == Some(i) {
+                            let key: &[u8] = [&b"a"[..], b"bb", b"key3"][rng.gen_range(0..3)];
+                            let body = limit as usize - [0usize, 0, 1, 7, 24, 40][rng.gen_range(0..6)];
+                            let value = vec![b'N'; body - 8 - key.len()];
+                            wire::store([op::SET, op::ADD, op::SETQ][rng.gen_range(0..3)], key, &value, 3, 0, 0x2000 + i as u32, 0).encode_into(&mut stream);
+                        }
                         frame::gen_frame(&mut rng, 0x1000 + i as u32, limit, closing && i + 2 >= nf).encode_into(&mut stream);
                     }
                     wire::simple(op::NOOP, SENTINEL).encode_into(&mut stream);
@@ -1113,6 +1122,15 @@ pub fn run_sock_frames(ctx: &Ctx) -> i32 {
                         v.sort();
                         v.dedup();
                         cutsets.push(v);
+                    }
+                    // large bodies within the limit: header plus a part of the body in the first read
+                    for f in table.iter().filter(|f| !f.too_large && f.body_len > 2000) {
+                        for part in [1usize, 100, 3000] {
+                            let x = f.start + 24 + part;
+                            if x < f.end && x < n {
+                                cutsets.push(vec![x]);
+                            }
+                        }
                     }
                     // oversized bodies: cuts inside the body at characteristic fractions
                     for f in table.iter().filter(|f| f.too_large) {
